@@ -87,8 +87,19 @@ Inductive out :=
 (* the contents of fresh, never written memory; nobody may look at it *)
 Definition junk0 : store := fun p => mkE (- p - 1) (- 1).
 
-Definition val_eqb (a b : elem) : bool := eval a =? eval b.
-Definition val_cmp (a b : elem) : option comparison := Some (eval a ?= eval b).
+(* The element type of the harness has one NaN-like value: an element whose
+   value is [nan_val] is not equal to anything (itself included) and is
+   unordered against everything under PartialOrd::partial_cmp; Ord::cmp stays
+   the total order on values. *)
+Definition nan_val : Z := 13.
+
+(* PartialEq::eq of the element type *)
+Definition val_eqb (a b : elem) : bool := (eval a =? eval b) && negb (eval a =? nan_val).
+(* PartialOrd::partial_cmp of the element type *)
+Definition val_cmp (a b : elem) : option comparison :=
+  if (eval a =? nan_val) || (eval b =? nan_val) then None else Some (eval a ?= eval b).
+(* Ord::cmp of the element type *)
+Definition val_ord (a b : elem) : option comparison := Some (eval a ?= eval b).
 
 (* ---- helpers ----------------------------------------------------------- *)
 
@@ -338,7 +349,7 @@ Definition exec (o : op) : M out :=
   | OEq other => b <- buf_eq val_eqb other;; ret (OutBool b)
   | OEqSlice form xs => b <- eq_form form val_eqb xs;; ret (OutBool b)
   | OPartialCmp other => r <- buf_partial_cmp val_cmp other;; ret (OutOrd r)
-  | OCmp other => r <- buf_cmp val_cmp other;; ret (OutOrd r)
+  | OCmp other => r <- buf_cmp val_ord other;; ret (OutOrd r)
   | OHash => buf_hash;; ret OutUnit
   | OWrite fam src => n <- fam_write fam src;; ret (OutZ n)
   | OFlush fam => fam_flush fam;; ret OutUnit
